@@ -400,6 +400,8 @@ func (ds *Dataset) StoreEntitiesWithTransaction(
 				if IsEntityEqual(prevLocalJSON, jsonData, prevLocalEntity, e) {
 					isDifferentLocally = false
 				}
+				// within a batch the previous occurrence of the entity is the version this one replaces
+				isDifferent = isDifferentLocally
 
 			} else {
 				isDifferentLocally = false
